@@ -29,6 +29,7 @@ pub struct PeerShape {
     /// matched = base + off (concrete), or symbolic below next_idx.  Concrete where the step
     /// derives next_idx from matched (become_probe / become_replicate).
     pub matched_off: Option<u64>,
+    pub matched_abs: Option<u64>,
     /// Probe: paused flag; all states: recent_active.  Concrete because they decide whether a
     /// message is emitted (a symbolic number of emitted messages makes every later push costly).
     pub paused: bool,
@@ -51,16 +52,21 @@ impl PeerShape {
         self
     }
     pub const fn probe(id: u64, next_off: u64) -> PeerShape {
-        PeerShape { id, state: ProgressState::Probe, next_off, inflight: 0, matched_off: None, paused: false, recent_active: true, pending_snapshot_off: 1 }
+        PeerShape { id, state: ProgressState::Probe, next_off, inflight: 0, matched_off: None, matched_abs: None, paused: false, recent_active: true, pending_snapshot_off: 1 }
     }
     pub const fn replicate(id: u64, next_off: u64, inflight: usize) -> PeerShape {
-        PeerShape { id, state: ProgressState::Replicate, next_off, inflight, matched_off: None, paused: false, recent_active: true, pending_snapshot_off: 1 }
+        PeerShape { id, state: ProgressState::Replicate, next_off, inflight, matched_off: None, matched_abs: None, paused: false, recent_active: true, pending_snapshot_off: 1 }
     }
     pub const fn snapshot(id: u64, next_off: u64) -> PeerShape {
-        PeerShape { id, state: ProgressState::Snapshot, next_off, inflight: 0, matched_off: None, paused: false, recent_active: true, pending_snapshot_off: 1 }
+        PeerShape { id, state: ProgressState::Snapshot, next_off, inflight: 0, matched_off: None, matched_abs: None, paused: false, recent_active: true, pending_snapshot_off: 1 }
     }
     pub const fn matched(mut self, off: u64) -> PeerShape {
         self.matched_off = Some(off);
+        self
+    }
+    /// matched as an absolute index (for peers behind the compaction point)
+    pub const fn matched_abs(mut self, v: u64) -> PeerShape {
+        self.matched_abs = Some(v);
         self
     }
 }
@@ -562,9 +568,10 @@ fn leader_progress(s: &mut Src, sh: &Shape, r: &mut Raft<VStore>, g: &Ghost) {
             let next = sh.base + ps.next_off;
             assert!(next >= 1 && next <= last + 1, "shape: next_idx out of (0, last+1]");
             pr.next_idx = next;
-            pr.matched = match ps.matched_off {
-                Some(o) => sh.base + o,
-                None => s.u64(),
+            pr.matched = match (ps.matched_abs, ps.matched_off) {
+                (Some(v), _) => v,
+                (None, Some(o)) => sh.base + o,
+                (None, None) => s.u64(),
             };
             vassume!(pr.matched < next);
             pr.state = ps.state;
